@@ -1479,3 +1479,90 @@ def r_orderpanic(ctx, view):
             ctx.ob("R-ORDERPANIC", "%s:explicit-panics" % key, True, f.loc(),
                    "%d explicit panic site(s), none control-dependent on a comparison of priorities" % total)
     ctx.ob("R-ORDERPANIC", "crate:no-order-dependent-panic", True, "", "%d explicit panic sites examined in %d bodies" % (npan, len(view.prog.fns)))
+
+
+# ------------------------------------------------------------------------------------------
+# R-ASSERT (C04): an explicit bound assertion is an obligation like an unchecked access
+# ------------------------------------------------------------------------------------------
+def r_assert(ctx, view):
+    """R-ASSERT.  `debug_assert!(i.0 < self.len())` / `assert!(..)` on a position or index is a panic in fault-free use unless
+    the asserted bound is a fact: it is discharged exactly like the bound an unchecked access needs (dominating guards, table
+    reads, the contract of the function - whose preconditions every call site discharges in turn).  Read in the build with debug
+    assertions on (the bodies of `debug_assert!` are live code there).  Conditions of other shapes (equalities of lengths ..)
+    are not decided and not reported."""
+    if view.config != "std":
+        return
+    from .engine import CheckError
+    ctx.cur = view
+    try:
+        dv = ctx.view("dbg")
+    except CheckError as e:
+        ctx.undecided.append("R-ASSERT: the build with debug assertions could not be analysed (%s)" % str(e)[:200])
+        return
+    finally:
+        ctx.cur = view
+    ctx.views.pop("dbg", None)
+    rb = RB(dv)
+    vp = dv.vp
+    live = set()
+    for key, g in dv.prog.fns.items():
+        if g.exported and key not in live:
+            live |= dv.fx.reach(key)
+    n = 0
+    for key in sorted(live):
+        f = dv.prog.fns.get(key)
+        if f is None or not f.blocks:
+            continue
+        reach = f.cfg.reach
+        pred = {}
+        for i in reach:
+            for o in f.cfg.succ[i]:
+                pred.setdefault(o, []).append(i)
+        for p in sorted(reach):
+            if not is_panic_entry(f.blocks[p]["term"]):
+                continue
+            # must-panic region and the switches that decide it (as in R-ORDERPANIC, on the live CFG of the debug build)
+            R = {p}
+            st = [p]
+            while st:
+                x = st.pop()
+                for y in pred.get(x, []):
+                    if y not in R:
+                        R.add(y)
+                        st.append(y)
+            A = {p}
+            grew = True
+            while grew:
+                grew = False
+                for x in R:
+                    su = f.cfg.succ[x]
+                    if x not in A and su and all(o in A for o in su):
+                        A.add(x)
+                        grew = True
+            for s in sorted(R):
+                t = f.blocks[s]["term"]
+                if s in A or t["k"] != "switch" or not any(o in A for o in f.cfg.succ[s]):
+                    continue
+                try:
+                    d = strip(rb.fvp.switch_discr(f, s))   # flow-sensitive: the value the variables have HERE
+                except Exception:
+                    d = strip(vp.operand(f, t["discr"]))
+                if d[0] != "binop" or d[1] not in ("Lt", "Le", "Gt", "Ge"):
+                    continue
+                a, b, op = d[2], d[3], d[1]
+                if op in ("Gt", "Ge"):
+                    a, b, op = b, a, {"Gt": "Lt", "Ge": "Le"}[op]
+                if op != "Lt" or not rb.is_len(b):
+                    continue
+                # which edge holds the bound?  the one that does NOT lead to the panic must be the `a < len` side
+                zero = [tb for v, tb in t["targets"] if v == 0]
+                true_t = t["otherwise"]
+                if true_t in A or not zero or zero[0] not in A:
+                    continue   # the panic sits on the TRUE side: an assertion of the opposite fact, not a bound
+                n += 1
+                ok, why = rb.valid(f, s, a)
+                ctx.ob("R-ASSERT", "%s:asserted-bound:%s" % (short(key), rb.c(strip(a))[:40]), ok, f.loc(t["span"]),
+                       ("the asserted bound %s < len holds: %s" % (term_str(a)[:40], why)) if ok else
+                       ("the assertion `%s < len` can fail in fault-free use: %s" % (term_str(a)[:50], why)))
+    # preconditions inferred for new private helpers while discharging: checked at their call sites by R-BOUNDS proper
+    ctx.ob("R-ASSERT", "crate:bound-assertions", True, "", "%d explicit bound assertions examined (debug build)" % n)
